@@ -1,3 +1,346 @@
 package c10
 
-func (ck *checker) familyCLI() {}
+import (
+	"context"
+	"fmt"
+	"os"
+	"path/filepath"
+	"reflect"
+	"sort"
+	"strings"
+	"sync/atomic"
+
+	imagev1 "github.com/bufbuild/buf/private/gen/proto/go/buf/alpha/image/v1"
+	"github.com/bufbuild/bufverif/internal/bufx"
+	"github.com/bufbuild/bufverif/internal/enum"
+	"google.golang.org/protobuf/proto"
+)
+
+// family D: the same reference model against the real CLI (`buf dep graph`, `buf ls-files
+// --include-imports --format import`, `buf build -o -`) run in-process on scratch directories.
+// Only kinds that exist without a registry (local unnamed, local named, local + pinned in buf.lock;
+// the pinned commit is never fetched because the local module wins) can be used offline.
+
+type cliCounters struct {
+	commands, depGraphExact, depGraphCycle, lsCompared, buildCompared, lsVsBuild, dupDemands, missDemands, exit100 atomic.Int64
+}
+
+func writeTree(dir string, files map[string]string) error {
+	for p, c := range files {
+		full := filepath.Join(dir, filepath.FromSlash(p))
+		if err := os.MkdirAll(filepath.Dir(full), 0o755); err != nil {
+			return err
+		}
+		if err := os.WriteFile(full, []byte(c), 0o644); err != nil {
+			return err
+		}
+	}
+	return nil
+}
+
+func (ck *checker) familyCLI() {
+	r := ck.r
+	scratch, err := os.MkdirTemp("", "verif-c10-")
+	if err != nil {
+		r.Incomplete("harness: cannot create scratch dir: " + err.Error())
+		return
+	}
+	defer os.RemoveAll(scratch)
+	var cc cliCounters
+	var specs []Spec
+	cliKinds := []Kind{KLocal, KNamed, KBoth}
+	for n := 1; n <= 3; n++ {
+		for _, eg := range enum.Digraphs(n, false) {
+			g := fromEnum(eg)
+			vectors := allKinds(n, cliKinds)
+			if n == 3 && r.Quick() {
+				vectors = [][]Kind{{KLocal, KLocal, KLocal}, {KNamed, KNamed, KNamed}, {KLocal, KNamed, KBoth}, {KBoth, KLocal, KNamed}}
+			}
+			for _, ks := range vectors {
+				for _, v2 := range []bool{false, true} {
+					specs = append(specs, newSpec(g, ks, v2))
+				}
+			}
+			// plants: n <= 2 in the quick tier, n <= 3 in the thorough tier
+			if n == 3 && r.Quick() {
+				continue
+			}
+			for _, v2 := range []bool{false, true} {
+				for _, k := range []Kind{KLocal, KNamed} {
+					ks := make([]Kind, n)
+					for i := range ks {
+						ks[i] = k
+					}
+					for from := 0; from < n; from++ {
+						for into := 0; into < n; into++ {
+							if from != into {
+								s := newSpec(g, ks, v2)
+								s.DupFrom, s.DupInto = from, into
+								specs = append(specs, s)
+							}
+						}
+						s := newSpec(g, ks, v2)
+						s.MissingIn = from
+						specs = append(specs, s)
+					}
+				}
+			}
+		}
+	}
+	r.Set("cli_specs", len(specs))
+	ctx := context.Background()
+	r.ParallelFor(len(specs), 0, func(idx int) {
+		s := specs[idx]
+		b, err := build(ctx, s)
+		if err != nil {
+			r.Incomplete(fmt.Sprintf("harness: cannot build cli spec %s: %v", s.key(), err))
+			return
+		}
+		dir := filepath.Join(scratch, fmt.Sprintf("w%d", idx))
+		if err := writeTree(dir, b.Files); err != nil {
+			r.Incomplete("harness: cannot write scratch tree: " + err.Error())
+			return
+		}
+		defer os.RemoveAll(dir)
+		for ti, t := range s.targets() {
+			r.Eval(1)
+			if hasEdge(s.G) || s.DupFrom >= 0 || s.MissingIn >= 0 {
+				r.Distinct("cli/" + s.key() + "/" + t.String())
+			}
+			r.SampleEvery(idx*16+ti, 4999, func() any { return Case{Spec: s, Target: t, Module: "cli"} })
+			ck.checkCLI(ctx, &cc, b, dir, t)
+		}
+	})
+	r.Set("cli_commands", cc.commands.Load())
+	r.Set("cli_dep_graph_exact", cc.depGraphExact.Load())
+	r.Set("cli_dep_graph_cycle_errors_demanded", cc.depGraphCycle.Load())
+	r.Set("cli_lsfiles_compared", cc.lsCompared.Load())
+	r.Set("cli_build_compared", cc.buildCompared.Load())
+	r.Set("cli_lsfiles_vs_build_compared", cc.lsVsBuild.Load())
+	r.Set("cli_duplicate_demands", cc.dupDemands.Load())
+	r.Set("cli_missing_import_demands", cc.missDemands.Load())
+	r.Set("cli_exit_100_observed", cc.exit100.Load())
+	for name, v := range map[string]int64{"cli dep graph": cc.depGraphExact.Load(), "cli dep graph cycle": cc.depGraphCycle.Load(),
+		"cli ls-files vs build": cc.lsVsBuild.Load(), "cli duplicate": cc.dupDemands.Load(), "cli missing import exit 100": cc.exit100.Load()} {
+		if v == 0 && !r.Expired() {
+			r.Incomplete("clause never exercised: " + name)
+		}
+	}
+}
+
+// cliArgs maps a target to the CLI input and flags.
+func cliArgs(dir string, t Target) (input string, flags []string) {
+	switch t.Kind {
+	case "dir":
+		return filepath.Join(dir, modDir(t.Node)), nil
+	case "file":
+		return filepath.Join(dir, filepath.FromSlash(t.filePath())), nil
+	case "path":
+		return dir, []string{"--path", filepath.Join(dir, filepath.FromSlash(t.filePath()))}
+	}
+	return dir, nil
+}
+
+// parseDOT extracts node and edge sets from `buf dep graph` output.
+func parseDOT(out string) (*DAGObs, error) {
+	obs := &DAGObs{}
+	nodes := map[string]bool{}
+	for _, line := range strings.Split(out, "\n") {
+		line = strings.TrimSpace(line)
+		if line == "" || line == "digraph {" || line == "}" || line == "digraph {}" {
+			continue
+		}
+		parts := strings.Split(line, " -> ")
+		unq := make([]string, len(parts))
+		for i, p := range parts {
+			if len(p) < 2 || p[0] != '"' || p[len(p)-1] != '"' {
+				return nil, fmt.Errorf("cannot parse dot line %q", line)
+			}
+			unq[i] = p[1 : len(p)-1]
+			nodes[unq[i]] = true
+		}
+		switch len(unq) {
+		case 1:
+		case 2:
+			obs.Edges = append(obs.Edges, [2]string{unq[0], unq[1]})
+		default:
+			return nil, fmt.Errorf("cannot parse dot line %q", line)
+		}
+	}
+	for n := range nodes {
+		obs.Nodes = append(obs.Nodes, n)
+	}
+	sort.Strings(obs.Nodes)
+	sortEdges(obs.Edges)
+	return obs, nil
+}
+
+func (ck *checker) cliViolate(sig, what string, b *Built, t Target, res bufx.CLIResult, c Case) {
+	c.Error = fmt.Sprintf("exit=%d stderr=%s", res.ExitCode, res.Stderr)
+	if len(c.Error) > 800 {
+		c.Error = c.Error[:800]
+	}
+	ck.violate(sig, what, b, t, c)
+}
+
+func (ck *checker) checkCLI(ctx context.Context, cc *cliCounters, b *Built, dir string, t Target) {
+	s := b.Spec
+	input, flags := cliArgs(dir, t)
+	runCLI := func(args ...string) bufx.CLIResult {
+		cc.commands.Add(1)
+		res := bufx.RunCLI(ctx, nil, "", args...)
+		res.Stderr = strings.ReplaceAll(res.Stderr, dir, "<ws>")
+		return res
+	}
+	plant := s.DupFrom >= 0 || s.MissingIn >= 0
+	in := s.closure(t)
+	anyCycle := false
+	for i, x := range in {
+		if x && s.G.onCycle(i) {
+			anyCycle = true
+		}
+	}
+
+	// ---- dep graph (no --path flag on this command)
+	if t.Kind != "path" {
+		res := runCLI("dep", "graph", input)
+		switch {
+		case plant:
+			culprit := s.MissingIn
+			if s.DupFrom >= 0 {
+				culprit = s.DupFrom
+			}
+			if in[culprit] {
+				if res.ExitCode == 0 {
+					ck.cliViolate("cli/dep-graph/ambiguity/no-error", "`buf dep graph` succeeded although an ambiguous import is in the closure of the targets", b, t, res, Case{Observed: res.Stdout})
+				} else if s.MissingIn >= 0 && !anyCycle {
+					cc.missDemands.Add(1)
+					if res.ExitCode != 100 {
+						ck.cliViolate("cli/dep-graph/missing-import/exit-not-100", "`buf dep graph` did not exit 100 for an import nobody provides", b, t, res, Case{})
+					} else {
+						cc.exit100.Add(1)
+					}
+				} else if s.DupFrom >= 0 && !anyCycle {
+					cc.dupDemands.Add(1)
+					if !strings.Contains(res.Stderr, "is contained in multiple modules") {
+						ck.cliViolate("cli/dep-graph/duplicate/wrong-error", "`buf dep graph` failed without naming the duplicate path", b, t, res, Case{})
+					}
+				}
+			}
+		case anyCycle:
+			cc.depGraphCycle.Add(1)
+			if res.ExitCode == 0 {
+				ck.cliViolate("cli/dep-graph/cycle-in-closure/no-error", "`buf dep graph` succeeded although a module on a cycle is in the closure of the targets", b, t, res, Case{Observed: res.Stdout})
+			} else if !strings.Contains(res.Stderr, "cycle detected in module dependencies") {
+				ck.cliViolate("cli/dep-graph/cycle-in-closure/wrong-error", "`buf dep graph` failed with something else than the cycle error", b, t, res, Case{})
+			}
+		default:
+			_, want := s.expectDAG(t)
+			if res.ExitCode != 0 {
+				ck.cliViolate("cli/dep-graph/acyclic-closure/error", "`buf dep graph` failed on an acyclic closure", b, t, res, Case{Expected: want})
+				break
+			}
+			got, err := parseDOT(res.Stdout)
+			if err != nil {
+				ck.r.Incomplete("harness: " + err.Error())
+				break
+			}
+			cc.depGraphExact.Add(1)
+			// a node without edges is printed alone; nodes with edges appear in edges
+			if !reflect.DeepEqual(got.Nodes, want.Nodes) {
+				ck.cliViolate("cli/dep-graph/wrong-nodes", "`buf dep graph` node set differs from targets plus reachable", b, t, res, Case{Observed: got, Expected: want})
+			} else if !reflect.DeepEqual(got.Edges, want.Edges) {
+				ck.cliViolate("cli/dep-graph/wrong-edges", "`buf dep graph` edge set differs from the import edges", b, t, res, Case{Observed: got, Expected: want})
+			}
+		}
+	}
+
+	// ---- ls-files --include-imports and build
+	lsArgs := append([]string{"ls-files", "--include-imports", "--format", "import", input}, flags...)
+	buildArgs := append([]string{"build", input, "-o", "-#format=binpb"}, flags...)
+	if plant {
+		needed := bPath(max(s.MissingIn, 0))
+		if s.DupFrom >= 0 {
+			needed = aPath(s.DupFrom)
+		}
+		if !s.needsFile(t, needed) {
+			return
+		}
+		ls, bd := runCLI(lsArgs...), runCLI(buildArgs...)
+		if ls.ExitCode == 0 {
+			ck.cliViolate("cli/ls-files/ambiguity/no-error", "`buf ls-files --include-imports` succeeded although a needed path is ambiguous", b, t, ls, Case{Observed: ls.Stdout})
+		}
+		if bd.ExitCode == 0 {
+			ck.cliViolate("cli/build/ambiguity/no-error", "`buf build` succeeded although a needed path is ambiguous", b, t, bd, Case{})
+		} else if s.MissingIn >= 0 {
+			cc.missDemands.Add(1)
+			if bd.ExitCode != 100 {
+				ck.cliViolate("cli/build/missing-import/exit-not-100", "`buf build` did not exit 100 for an import nobody provides", b, t, bd, Case{})
+			} else {
+				cc.exit100.Add(1)
+			}
+		} else {
+			cc.dupDemands.Add(1)
+			if !strings.Contains(bd.Stderr, "is contained in multiple modules") {
+				ck.cliViolate("cli/build/duplicate/wrong-error", "`buf build` failed without naming the duplicate path", b, t, bd, Case{})
+			}
+		}
+		return
+	}
+	wantImg := s.expectImage(t)
+	var wantPaths []string
+	for _, f := range wantImg {
+		wantPaths = append(wantPaths, f.Path)
+	}
+	ls := runCLI(lsArgs...)
+	var lsPaths []string
+	if ls.ExitCode != 0 {
+		ck.cliViolate("cli/ls-files/error", "`buf ls-files --include-imports` failed on a well-formed workspace", b, t, ls, Case{})
+	} else {
+		lsPaths = strings.Split(strings.TrimSuffix(ls.Stdout, "\n"), "\n")
+		sort.Strings(lsPaths)
+		cc.lsCompared.Add(1)
+		if !reflect.DeepEqual(lsPaths, wantPaths) {
+			ck.cliViolate("cli/ls-files/files-differ", "`buf ls-files --include-imports` differs from the files the image must contain", b, t, ls, Case{Observed: lsPaths, Expected: wantPaths})
+		}
+	}
+	bd := runCLI(buildArgs...)
+	if bd.ExitCode != 0 {
+		ck.cliViolate("cli/build/error", "`buf build` failed on a well-formed workspace", b, t, bd, Case{})
+		return
+	}
+	img := &imagev1.Image{}
+	if err := proto.Unmarshal([]byte(bd.Stdout), img); err != nil {
+		ck.r.Incomplete("harness: cannot parse image from `buf build -o -`: " + err.Error())
+		return
+	}
+	var got []ImgFile
+	for _, f := range img.GetFile() {
+		x := ImgFile{Path: f.GetName(), IsImport: f.GetBufExtension().GetIsImport()}
+		if mi := f.GetBufExtension().GetModuleInfo(); mi != nil && mi.GetName() != nil {
+			n := mi.GetName()
+			x.Module = n.GetRemote() + "/" + n.GetOwner() + "/" + n.GetRepository()
+			x.Commit = mi.GetCommit()
+		}
+		got = append(got, x)
+	}
+	sort.Slice(got, func(i, j int) bool { return got[i].Path < got[j].Path })
+	cc.buildCompared.Add(1)
+	if !reflect.DeepEqual(got, wantImg) {
+		sig := fileListSignature("cli/build", imgPaths(got), imgPaths(wantImg))
+		if sig == "cli/build/same-files" {
+			sig = "cli/build/module-attribution-differs"
+		}
+		ck.cliViolate(sig, "`buf build` image differs from target files + import closure", b, t, bd, Case{Observed: got, Expected: wantImg})
+	}
+	if lsPaths != nil {
+		var gotPaths []string
+		for _, f := range got {
+			gotPaths = append(gotPaths, f.Path)
+		}
+		cc.lsVsBuild.Add(1)
+		if !reflect.DeepEqual(lsPaths, gotPaths) {
+			ck.cliViolate("cli/ls-files-vs-build/differ", "`buf ls-files --include-imports` and `buf build` disagree on the file list", b, t, ls, Case{Observed: lsPaths, Expected: gotPaths})
+		}
+	}
+}
